@@ -343,7 +343,7 @@ func (r *transport) handleCacheHit(
 		age := freshness.Age.Value + r.clock.Since(freshness.Age.Timestamp)
 		staleFor := age - freshness.UsefulLife
 		if staleFor >= 0 && staleFor < swr {
-			return r.handleStaleWhileRevalidate(req, stored, urlKey, freshness, ccReq)
+			return r.handleStaleWhileRevalidate(req, stored, urlKey, freshness, ccReq, ccResp)
 		}
 	}
 
@@ -421,6 +421,7 @@ func (r *transport) handleStaleWhileRevalidate(
 	urlKey string,
 	freshness *internal.Freshness,
 	ccReq internal.CCRequestDirectives,
+	ccResp internal.CCResponseDirectives,
 ) (*http.Response, error) {
 	req2 := req.Clone(req.Context())
 	req2 = withConditionalHeaders(req2, stored.Data.Header)
@@ -431,6 +432,9 @@ func (r *transport) handleStaleWhileRevalidate(
 	// Open a discussion at github.com/bartventer/httpcache/issues if your use case requires
 	// guaranteed completion.
 	go r.backgroundRevalidate(req2, stored, urlKey, freshness, ccReq)
+	// Served without validation: fields named by a qualified no-cache must not be replayed
+	internal.StripNoCacheFields(stored.Data.Header, ccResp)
+	internal.SetAgeHeader(stored.Data, r.clock, freshness.Age)
 	internal.CacheStatusStale.ApplyTo(stored.Data.Header)
 	r.logger.LogCacheStaleRevalidate(req, urlKey, internal.MiscFunc(func() internal.Misc {
 		return internal.Misc{
